@@ -22,16 +22,28 @@ MIN_EVAL = {"quick": {"values": 1500, "dims_grid": 1500, "raises": 300}, "thorou
 
 def cases(tier, seed):
     rng = np.random.default_rng([seed, 1717])
+    # one large variable (implementations that work block-wise see more than one block)
+    yield {"mesh": LARGE, "extra_width": 0, "dseed": 7, "dtype": "float64", "lead": [4, 64], "layout": "C", "big_offset": False, "backend": "numpy", "large": True}
     n = 90 if tier == "quick" else 12000
     for i in range(n):
         yield {"mesh": gen.random_mesh(rng, 120 if tier == "quick" else 800, families=["voronoi", "merged", "merged", "polyhedron", "delaunay", "cubed_sphere", "sample"]),
                "extra_width": int(rng.choice([0, 0, 2])), "dseed": int(rng.integers(0, 10**6)),
-               "dtype": str(rng.choice(["float64", "float32", "int64", "bool"])), "lead": [int(x) for x in rng.integers(1, 4, size=int(rng.integers(0, 3)))],
+               "dtype": str(rng.choice(["float64", "float32", "int64", "bool", "uint8", "int16", "int32"])), "lead": [int(x) for x in rng.integers(1, 4, size=int(rng.integers(0, 3)))],
                "layout": str(rng.choice(["C", "C", "F", "T", "strided"])), "big_offset": bool(rng.random() < 0.25),
                "backend": str(rng.choice(["numpy", "numpy", "numpy", "dask_data", "dask_grid", "dask_both"]))}
 
 
+LARGE = {"family": "cubed_sphere", "ne": 30, "ops": []}  # 5400 quads; with leading (4, 64) the variable holds 5.5 million corner values
+
+
 def make_data(rng, dtype, shape):
+    if dtype in ("uint8", "int16", "int32"):
+        # narrow integers close to the top of their range: sums of two neighbours leave the type
+        hi = int(np.iinfo(dtype).max)
+        d = rng.integers(hi // 2, hi, size=shape).astype(dtype)
+        d[..., 0] = hi
+        d[..., -1] = int(np.iinfo(dtype).min) + 1 if dtype != "uint8" else 1
+        return d
     if dtype == "bool":
         d = rng.random(shape) < 0.7
         d[..., 0] = False
@@ -88,8 +100,8 @@ def run_case(ctx, case):
         else:
             en = np.asarray(g.edge_node_connectivity.values)
             elems = [list(map(int, r)) for r in en]
-        for agg in AGGS:
-            sig = {"agg": agg, "dest": dest, "dtype": case["dtype"], "mixed": mixed, "layout": layout, "rank": len(lead) + 1, "backend": backend}
+        for agg in (AGGS if not case.get("large") else ["mean", "max"]):
+            sig = {"agg": agg, "dest": dest, "dtype": case["dtype"], "mixed": mixed, "layout": layout, "rank": len(lead) + 1, "backend": backend, "large": bool(case.get("large"))}
             try:
                 res = getattr(uxda, "topological_" + agg)(destination=dest)
             except Exception as e:
